@@ -6,6 +6,7 @@
 From Coq Require Import ZArith List.
 From NV Require Import Common.Py Common.Trans Spec.TimeSpec Gen.BintimeGen Model.Convert
   Corr.C04Spec Corr.C04Model Proofs.ConvertProofs Proofs.C04Proofs.
+From NV Require Model.Complex Model.Scaling Model.TotalSeconds Proofs.C04Float.
 Open Scope Z_scope.
 
 (* bintime -> datetime: rounded down, error in [0, 1 us)  (t/2^64 - r/10^6 in [0, 10^-6)) *)
@@ -102,3 +103,15 @@ Example C04_witness :
   bt_to_dt_td (T64 - 1) = Ok 999999 /\ dt_to_bt_td 1 = Ok 18446744073709 /\ ht_to_bt_td (-54211) = Ok (-1) /\
   ctor_rat 1 2 = Ok 9223372036854775808 /\ ctor_rat (-3) 2 = Ok (-27670116110564327424).
 Proof. repeat split; vm_compute; reflexivity. Qed.
+
+(* total_seconds(): float(whole) + float(frac / 2^64) as three round-to-nearest-even steps; the result is
+   within half a quantum of each of them of the exact value t / 2^64 (all scaled by 2^-s into Z).  The
+   model is compared bit for bit with the implementation on every run. *)
+Theorem C04_total_seconds_error : forall t mw qw mf qf ms qs,
+  Scaling.rnd Scaling.b64 (Complex.FNum (t / TotalSeconds.T64') 0) = Complex.FNum mw qw ->
+  Scaling.rnd Scaling.b64 (Complex.FNum (t mod TotalSeconds.T64') (-64)) = Complex.FNum mf qf ->
+  TotalSeconds.total_seconds t = Complex.FNum ms qs ->
+  forall s, s <= -64 -> s <= qw -> s <= qf -> s <= qs ->
+    2 * Z.abs (ms * 2 ^ (qs - s) - t * 2 ^ (-64 - s)) <= 2 ^ (qw - s) + 2 ^ (qf - s) + 2 ^ (qs - s).
+Proof. exact C04Float.total_seconds_err. Qed.
+Print Assumptions C04_total_seconds_error.
